@@ -8,7 +8,7 @@ import hashlib
 from harness import conv, corpus, tlc
 
 PROP = "C13"
-TRACE_CFG = "SPECIFICATION TSpec\nCONSTANT MaxSteps = 0\nCONSTANT NBases = 3\nCONSTRAINT Accepted\nCHECK_DEADLOCK FALSE\n"
+TRACE_CFG = "SPECIFICATION TSpec\nCONSTANT MaxSteps = 0\nCONSTANT NBases = 4\nCONSTRAINT Accepted\nCHECK_DEADLOCK FALSE\n"
 _BASE = {}
 
 
@@ -48,20 +48,20 @@ def run(rep):
     rep.rule = ("Layout.tla holds the catalogue of 15 meaning-preserving transformations (header case / spacing, column aliases, language delimiter styles, "
                 "question-type aliases, truth spellings, smart quotes, padded cells, column and sheet permutation, foreign and underscore-prefixed sheets, "
                 "unknown plain columns, sheet-name case, blank rows at every position of survey and choices) with their applicable sheets; TLC enumerates "
-                "every ordered composition of <= 2 (quick) / 3 (thorough, sampled) entries on 3 base forms and computes the row shift each blank row causes. "
+                "every ordered composition of <= 2 (quick) / 3 (thorough, sampled) entries on 4 base forms and computes the row shift each blank row causes. "
                 "The harness performs the composition on the concrete workbook (xlsx / dict), converts, and TLC (Trace_Layout) checks: same outcome, same "
                 "canonical XForm as the base after renumbering generated helper names by the shift, same warnings (sheet, shifted row, text) and same itemsets.")
     rep.assumptions = ["canonical XForm = ElementTree tree with sorted attributes, translations sorted by language and text id (layoutgen.canon)",
                        "only catalogue entries backed by an alias table or a cleaning step are used; question-type *case* is not in the catalogue"]
     n = 2 if rep.tier == "quick" else 3
-    cfg = corpus._cfg("Gen_Layout.cfg", f"SPECIFICATION LSpec\nCONSTANT MaxSteps = {n}\nCONSTANT NBases = 3\nCONSTRAINT Emit\nINVARIANT ShiftMonotone\nINVARIANT ShiftExact\nCHECK_DEADLOCK FALSE\n")
+    cfg = corpus._cfg("Gen_Layout.cfg", f"SPECIFICATION LSpec\nCONSTANT MaxSteps = {n}\nCONSTANT NBases = 4\nCONSTRAINT Emit\nINVARIANT ShiftMonotone\nINVARIANT ShiftExact\nCHECK_DEADLOCK FALSE\n")
     if n == 2:
         cases, r = tlc.generate("Gen_Layout", cfg, tag="genlayout", timeout=900)
     else:
-        c2, r = tlc.generate("Gen_Layout", corpus._cfg("Gen_Layout2.cfg", "SPECIFICATION LSpec\nCONSTANT MaxSteps = 2\nCONSTANT NBases = 3\nCONSTRAINT Emit\nINVARIANT ShiftMonotone\nINVARIANT ShiftExact\nCHECK_DEADLOCK FALSE\n"), tag="genlayout", timeout=900)
+        c2, r = tlc.generate("Gen_Layout", corpus._cfg("Gen_Layout2.cfg", "SPECIFICATION LSpec\nCONSTANT MaxSteps = 2\nCONSTANT NBases = 4\nCONSTRAINT Emit\nINVARIANT ShiftMonotone\nINVARIANT ShiftExact\nCHECK_DEADLOCK FALSE\n"), tag="genlayout", timeout=900)
         c3, r3 = tlc.generate("Gen_Layout", cfg, tag="genlayout3", simulate="num=20000", depth=5, seed=rep.seed + 3, timeout=1200)
         cases = c2 + [c for c in c3 if len(c["steps"]) == 3]
-    rep.add_mc(r, f"Layout: compositions of <= {min(n, 2)} catalogue entries on 3 base forms; ShiftMonotone, ShiftExact")
+    rep.add_mc(r, f"Layout: compositions of <= {min(n, 2)} catalogue entries on 4 base forms; ShiftMonotone, ShiftExact")
     rep.bounds["compositions"] = {"max_steps": n, "cases": len(cases)}
     rep.exhaustive = n == 2
     jobs = []
